@@ -12,17 +12,19 @@ import (
 
 // extension behaviours during shutdown
 const (
-	veSubExits   = iota // subscribed to SHUTDOWN, exits (status 0) on the event
-	veSubIgnores        // subscribed to SHUTDOWN, receives the event and keeps running
-	veUnsub             // not subscribed to SHUTDOWN
-	veLaunchFail        // failed to launch
-	veSubExits1         // subscribed, exits with status 1 on the event
+	veSubExits      = iota // subscribed to SHUTDOWN, exits (status 0) on the event
+	veSubIgnores           // subscribed to SHUTDOWN, receives the event and keeps running
+	veUnsub                // not subscribed to SHUTDOWN
+	veLaunchFail           // failed to launch
+	veSubExits1            // subscribed, exits with status 1 on the event
+	veAlreadyExited        // subscribed, but exited by itself (status 0) before the operation began
 )
 
 // runtime behaviours during shutdown
 const (
 	vrExitsOnTerm = iota
 	vrIgnoresTerm
+	vrAlreadyExited // exited by itself before the operation began
 )
 
 func (w *verifWorld) t() int64 { return time.Now().UnixNano() }
@@ -35,14 +37,14 @@ func verifShutdown(nExt int, trigger string) {
 	for i := 0; i < nExt; i++ {
 		n := fmt.Sprintf("ext%d", i)
 		entries = append(entries, verifDirEntry{name: n})
-		beh[i] = []int{veSubExits, veSubIgnores, veUnsub, veLaunchFail, veSubExits1}[verifChoice(5, "extension behaviour")]
+		beh[i] = []int{veSubExits, veSubIgnores, veUnsub, veLaunchFail, veSubExits1, veAlreadyExited}[verifChoice(6, "extension behaviour")]
 		if beh[i] == veUnsub {
 			events[n] = []string{"INVOKE"}
 		} else {
 			events[n] = []string{"SHUTDOWN"}
 		}
 	}
-	rtBeh := []int{vrExitsOnTerm, vrIgnoresTerm}[verifChoice(2, "runtime behaviour")]
+	rtBeh := []int{vrExitsOnTerm, vrIgnoresTerm, vrAlreadyExited}[verifChoice(3, "runtime behaviour")]
 	w := newVerifWorld(entries, true, false)
 	launchFails := false
 	for i := 0; i < nExt; i++ {
@@ -96,6 +98,18 @@ func verifShutdown(nExt int, trigger string) {
 		verifAssert(ir.done && ir.success, "initialisation completes")
 	}
 	runtimeStarted := w.count("supervisor", "exec", "runtime-1|/var/runtime/bootstrap") == 1
+	// processes that exit by themselves before the operation begins
+	for i := 0; i < nExt; i++ {
+		if p := w.sup.procs[fmt.Sprintf("extension-ext%d-1", i)]; p != nil && beh[i] == veAlreadyExited && !p.dead {
+			w.sup.exit(p, 0, 0)
+			verifReach("extension-already-exited")
+		}
+	}
+	if p := w.sup.procs["runtime-1"]; p != nil && rtBeh == vrAlreadyExited && !p.dead {
+		w.sup.exit(p, 0, 0)
+		verifReach("runtime-already-exited")
+	}
+	verifSettle()
 
 	const allowanceMs = 2000
 	start := w.t()
@@ -142,7 +156,9 @@ func verifShutdown(nExt int, trigger string) {
 		} else if registered > 0 {
 			verifReach("with-extensions")
 			verifAssert(terms(rt) == 1, "with extensions the runtime is first sent TERM")
-			if rtBeh == vrExitsOnTerm {
+			if rtBeh == vrAlreadyExited {
+				verifAssert(kills(rt) == 0, "a runtime that has already exited is not killed")
+			} else if rtBeh == vrExitsOnTerm {
 				verifAssert(kills(rt) == 0, "a runtime that exits on TERM is not killed")
 			} else {
 				verifAssert(kills(rt) == 1, "a runtime that ignores TERM is killed")
@@ -162,6 +178,10 @@ func verifShutdown(nExt int, trigger string) {
 			if registered > 0 && w.first(name, "register-returned", "200") > 0 {
 				verifAssert(shutdownEvents[name] == 0, "an extension not subscribed to SHUTDOWN receives no event")
 				verifAssert(kills(name) == 1, "an extension not subscribed to SHUTDOWN is killed")
+			}
+		case veAlreadyExited:
+			if w.first(name, "register-returned", "200") > 0 && runtimeStarted {
+				verifAssert(kills(name) == 0, "an extension that has already exited is not killed")
 			}
 		case veSubExits, veSubExits1, veSubIgnores:
 			if w.first(name, "register-returned", "200") == 0 || !runtimeStarted {
